@@ -15,7 +15,7 @@ KEEP = {"OUT": None, "APP": None}
 CFG = ("NODE host=node.local;realm=realm.local;idle=9999;"
        "peer:peer1.x,realm.local,0,0,30,1,1,-,-,-,-;peer:peer2.x,realm.local,0,0,30,1,0,-,-,-,-;"
        "peer:peer3.x,realm2.local,0,0,30,1,0,-,-,-,-;peer:peer4.x,realm.local,0,0,30,1,0,-,-,-,-;"
-       "app:4,1,0,b,0,1+3,-;app:4,1,0,b,0,2,-;app:3,0,1,b,0,-,-")
+       "app:4,1,0,b,0,0+1+3,-;app:4,1,0,b,0,2,-;app:3,0,1,b,0,-,-")
 NAMES = ["peer1.x", "peer2.x", "peer3.x", "peer4.x"]
 
 
